@@ -7,6 +7,18 @@ import PdfVerif.Model.Xref
 
 namespace PdfVerif.Xref
 
+open PdfVerif.Gen.Xref
+
+/-- ISO 32000-1 Table 18: a cross-reference stream row of type 1 is an uncompressed object
+(field 2 = byte offset, field 3 = generation), of type 2 a compressed object (field 2 = number of
+the object stream, field 3 = index within it, generation 0); type 0 is a free entry and any
+other type is to be treated as a reference to the null object — in both cases no definition. -/
+def specRowEntry (r : Nat × Nat × Nat) : Option Entry :=
+  match r.1 with
+  | 1 => some ⟨none, r.2.1, r.2.2⟩
+  | 2 => some ⟨some r.2.1, r.2.2, 0⟩
+  | _ => none
+
 /-- One revision: its define/override set (first match wins inside one revision) and the
 trailer's Root / Info. -/
 structure Revision where
